@@ -222,6 +222,25 @@ class CaseResult:
         return '#[derive(Ex)] %s' % self.item
 
 
+def respell(cid, mode, item):
+    """The model's input language spells every `derive_ex` list the bare way.  Under the attribute macro a list may also be
+    written with the crate name in front (`#[derive_ex::derive_ex(..)]`, `#[::derive_ex::derive_ex(..)]`: fix 2 of round 12
+    in DESIGN.md section 4) and means the same: in one case out of four the REAL macro gets its lists respelled (all of them,
+    or every other one), the model keeps the bare spelling - so the correspondence also says that the spelling is
+    immaterial.  (`#[derive(Ex)]` requests are left alone: a helper attribute of a derive cannot be a path.)"""
+    if mode != 'A' or cid % 4 not in (1, 2):
+        return item
+    pieces = item.split('# [ derive_ex (')
+    out = pieces[0]
+    for k, p in enumerate(pieces[1:]):
+        if cid % 4 == 1:
+            sp = '# [ :: derive_ex :: derive_ex (' if k % 2 == 0 else '# [ derive_ex :: derive_ex ('
+        else:
+            sp = '# [ derive_ex :: derive_ex (' if k % 2 == 0 else '# [ derive_ex ('
+        out += sp + p
+    return out
+
+
 def run_cases(cases):
     """cases: list of (sexp_request, meta).  Runs the extracted model (which also prints the
     concrete macro input) and then the real macro on that input.  Returns list of CaseResult."""
@@ -236,6 +255,7 @@ def run_cases(cases):
         if not parts or parts[0][0] != 'INPUT':
             raise RuntimeError('model rejected case %d: %s\n%s' % (i, parts, c[0][:2000]))
         _, r.mode, r.attr, r.item = parts[0]
+        r.item = respell(i, r.mode, r.item)
         r.expected = [p for p in parts[1:] if p[0] != 'END']
         real_in.append('%d\t%s\t%s\t%s' % (i, r.mode, r.attr, r.item))
         results.append(r)
